@@ -13,6 +13,11 @@
 #include "c20_used_values.hpp"
 #include "verif_rc.hpp"
 
+#include <cerrno>
+#include <csignal>
+#include <sys/resource.h>
+#include <sys/wait.h>
+
 namespace c20h {
 
 inline uint64_t mix64(uint64_t x) {
@@ -406,7 +411,11 @@ inline VResult o_snapshot(const VCase &c) {
   static const char *lu[] = {"m", "cm", "pc"};
   const char *unit = lu[c.i("length_unit")];
   const double ufac = c20::unit_value(UnitConverter::get_single_unit(unit));
-  const std::string prefix = "c20_" + std::to_string((long)getpid()) + "_snap";
+  // a fresh file name for every evaluation: an abort inside the writer or a
+  // reader leaves the HDF5 file open in this process
+  static unsigned long sequence = 0;
+  const std::string prefix = "c20_" + std::to_string((long)getpid()) + "_" +
+                             std::to_string(++sequence) + "_snap";
   const char *tmpd = getenv("VERIF_TMP");
   const std::string folder = tmpd ? tmpd : ".";
   std::string text = "SimulationBox:\n";
@@ -477,49 +486,167 @@ inline VResult o_snapshot(const VCase &c) {
     grid.create_copies(levels);
   }
   const uint_fast32_t counter = (uint_fast32_t)(f.salt % 1000);
-  writer.write(grid, counter, params);
   const std::string snap =
       Utilities::compose_filename(folder, prefix, "hdf5", counter, 3);
+  try {
+    writer.write(grid, counter, params);
+  } catch (const VerifAbort &e) {
+    H5close(); // closes the half-written file; the library re-opens on demand
+    unlink(snap.c_str());
+    r.fail("writing the snapshot aborts: " + e.msg);
+    return r;
+  }
+
+  // ---- the geometry block of the snapshot (what the readers rely on)
+  try {
+    HDF5Tools::HDF5File hf =
+        HDF5Tools::open_file(snap, HDF5Tools::HDF5FILEMODE_READ);
+    HDF5Tools::HDF5Group pg = HDF5Tools::open_group(hf, "/Parameters");
+    const std::string sa =
+        HDF5Tools::read_attribute<std::string>(pg, "SimulationBox:anchor");
+    const std::string ss =
+        HDF5Tools::read_attribute<std::string>(pg, "SimulationBox:sides");
+    const std::string sn =
+        HDF5Tools::read_attribute<std::string>(pg, "DensityGrid:number of cells");
+    const std::string sg = HDF5Tools::read_attribute<std::string>(
+        pg, "DensitySubGridCreator:number of subgrids");
+    HDF5Tools::close_group(pg);
+    HDF5Tools::close_file(hf);
+    double a[3], sd[3];
+    long nn[3], ng[3];
+    if (sscanf(sa.c_str(), "[%lf m, %lf m, %lf m]", a, a + 1, a + 2) != 3 ||
+        sscanf(ss.c_str(), "[%lf m, %lf m, %lf m]", sd, sd + 1, sd + 2) != 3 ||
+        sscanf(sn.c_str(), "[%ld, %ld, %ld]", nn, nn + 1, nn + 2) != 3 ||
+        sscanf(sg.c_str(), "[%ld, %ld, %ld]", ng, ng + 1, ng + 2) != 3)
+      r.fail("geometry attributes of the snapshot are not readable: " + sa +
+             " | " + ss + " | " + sn + " | " + sg);
+    else
+      for (int k = 0; k < 3; ++k)
+        if (!printed_close(a[k], f.anchor[k]) ||
+            !printed_close(sd[k], f.sides[k]) || nn[k] != f.n[k] ||
+            ng[k] != c.i("nsub", k))
+          r.fail("snapshot stores the geometry " + sa + " " + ss + " " + sn +
+                 " " + sg +
+                 vr::fmt(", the grid has anchor [%g, %g, %g] sides [%g, %g, "
+                         "%g]",
+                         f.anchor[0], f.anchor[1], f.anchor[2], f.sides[0],
+                         f.sides[1], f.sides[2]));
+  } catch (const VerifAbort &e) {
+    H5close();
+    r.fail("geometry attributes of the snapshot cannot be read: " + e.msg);
+  }
+  if (!r.ok) {
+    unlink(snap.c_str());
+    return r;
+  }
 
   size_t ncmp = 0;
   const CoordinateVector<int_fast32_t> ncell(f.n[0], f.n[1], f.n[2]);
   const CoordinateVector<int_fast32_t> nsub_read(
       c.i("nsub_read", 0), c.i("nsub_read", 1), c.i("nsub_read", 2));
+  // The read phase runs in a forked child with a CPU-time limit: a reader
+  // that indexes outside its tables (wrong box, wrong subgrid index) crashes
+  // or spins on a garbage lock instead of returning wrong values, and that
+  // has to become a reproducible failure, not a dead harness.
+  const bool run_buffered = cubic && exact6;
+  if (cubic && !exact6)
+    r.label("buffered-reader-box-not-representable-skipped");
+  if (run_buffered)
+    r.label("buffered-reader-run");
+  auto read_phase = [&]() -> std::string {
+    std::string m;
+    try {
+      {
+        CMacIonizeSnapshotDensityFunction rd(snap, false, false,
+                                             c.d("init_nf"), nullptr);
+        rd.initialize();
+        DensitySubGridCreator<DensitySubGrid> grid2(
+            box, ncell, nsub_read, CoordinateVector<bool>(false));
+        grid2.initialize(rd);
+        rd.free();
+        m = compare_grid(grid2, f, mask, c.d("init_nf"), "snapshot reader",
+                         ncmp);
+      }
+      // the snapshot stores the box only with the 6 significant digits of the
+      // used-values dump, and the buffered reader (made for cutting a sub-box
+      // out of an old snapshot) compares boxes with an absolute 1e-10
+      // tolerance: it is only asked to read boxes that survive the dump
+      if (m.empty() && run_buffered) {
+        const uint_fast32_t nb = (uint_fast32_t)c.i("buffer");
+        BufferedCMacIonizeSnapshotDensityFunction brd(
+            snap, nb, box,
+            CoordinateVector<uint_fast32_t>(f.n[0], f.n[1], f.n[2]), nullptr);
+        brd.initialize();
+        DensitySubGridCreator<DensitySubGrid> grid3(
+            box, ncell, nsub_read, CoordinateVector<bool>(false));
+        grid3.initialize(brd);
+        brd.free();
+        m = compare_grid(grid3, f, mask, 1.e-6, "buffered snapshot reader",
+                         ncmp);
+      }
+    } catch (const VerifAbort &e) {
+      m = "reading the snapshot back aborts: " + e.msg;
+    }
+    return m;
+  };
   std::string msg;
-  try {
-    {
-      CMacIonizeSnapshotDensityFunction rd(snap, false, false, c.d("init_nf"),
-                                           nullptr);
-      rd.initialize();
-      DensitySubGridCreator<DensitySubGrid> grid2(box, ncell, nsub_read,
-                                                  CoordinateVector<bool>(false));
-      grid2.initialize(rd);
-      rd.free();
-      msg = compare_grid(grid2, f, mask, c.d("init_nf"), "snapshot reader",
-                         ncmp);
+  int pfd[2];
+  if (pipe(pfd) != 0) {
+    r.fail("harness: pipe() failed");
+    unlink(snap.c_str());
+    return r;
+  }
+  fflush(stdout);
+  fflush(stderr);
+  const pid_t child = fork();
+  if (child == 0) {
+    close(pfd[0]);
+    struct rlimit lim;
+    lim.rlim_cur = 20; // seconds of CPU; a normal read takes a few ms
+    lim.rlim_max = 25;
+    setrlimit(RLIMIT_CPU, &lim);
+    signal(SIGSEGV, SIG_DFL);
+    signal(SIGBUS, SIG_DFL);
+    signal(SIGABRT, SIG_DFL);
+    const std::string m = read_phase();
+    size_t off = 0;
+    while (off < m.size()) {
+      const ssize_t w = write(pfd[1], m.data() + off, m.size() - off);
+      if (w <= 0)
+        break;
+      off += (size_t)w;
     }
-    // the snapshot stores the box only with the 6 significant digits of the
-    // used-values dump, and the buffered reader (made for cutting a sub-box out
-    // of an old snapshot) compares boxes with an absolute 1e-10 tolerance: it
-    // is only asked to read boxes that survive the dump
-    if (msg.empty() && cubic && !exact6)
-      r.label("buffered-reader-box-not-representable-skipped");
-    if (msg.empty() && cubic && exact6) {
-      r.label("buffered-reader-run");
-      const uint_fast32_t nb = (uint_fast32_t)c.i("buffer");
-      BufferedCMacIonizeSnapshotDensityFunction brd(
-          snap, nb, box,
-          CoordinateVector<uint_fast32_t>(f.n[0], f.n[1], f.n[2]), nullptr);
-      brd.initialize();
-      DensitySubGridCreator<DensitySubGrid> grid3(box, ncell, nsub_read,
-                                                  CoordinateVector<bool>(false));
-      grid3.initialize(brd);
-      brd.free();
-      msg = compare_grid(grid3, f, mask, 1.e-6, "buffered snapshot reader",
-                         ncmp);
+    close(pfd[1]);
+    _exit(0);
+  }
+  close(pfd[1]);
+  if (child < 0) {
+    close(pfd[0]);
+    r.fail("harness: fork() failed");
+    unlink(snap.c_str());
+    return r;
+  }
+  {
+    char buf[4096];
+    ssize_t n;
+    while ((n = read(pfd[0], buf, sizeof buf)) > 0)
+      msg.append(buf, (size_t)n);
+    close(pfd[0]);
+    int status = 0;
+    while (waitpid(child, &status, 0) < 0 && errno == EINTR) {
     }
-  } catch (const VerifAbort &e) {
-    msg = "reading the snapshot back aborts: " + e.msg;
+    if (WIFSIGNALED(status)) {
+      const int sig = WTERMSIG(status);
+      msg = vr::fmt("reading the snapshot back %s (signal %d%s)",
+                    (sig == SIGXCPU || sig == SIGKILL) ? "does not terminate"
+                                                       : "crashes",
+                    sig,
+                    sig == SIGSEGV   ? ", segmentation fault"
+                    : sig == SIGXCPU ? ", 20 s CPU limit"
+                                     : "");
+    } else if (WEXITSTATUS(status) != 0)
+      msg = vr::fmt("reading the snapshot back exits with status %d",
+                    WEXITSTATUS(status));
   }
   unlink(snap.c_str());
   if (!msg.empty())
